@@ -1777,6 +1777,9 @@ class unyt_array(np.ndarray):
         if getattr(ret, "shape", None) == ():
             ret = unyt_quantity(ret, bypass_validation=True, name=self.name)
             ret.units = self.units
+        elif isinstance(ret, unyt_quantity) and ret.size > 1:
+            # fancy indexing of a size-1 quantity can select several elements
+            ret = ret.view(unyt_array)
         return ret
 
     def __setitem__(self, item, value):
